@@ -1316,6 +1316,10 @@ func main() {
 			fails, info := runOwnCtx(oc)
 			if info == "timeout" {
 				ownHangs++
+				fmt.Fprintf(w, "cap %d %s capseed=%d capcount=%d\n", oc.Idx, info, *seed, *capacity)
+				fmt.Fprintf(w, "O C05 FAIL %s\n", strings.Join(fails, " ;; "))
+				stats["fail.C05"]++
+				continue
 			}
 			fmt.Fprintf(w, "cap %d %s capseed=%d capcount=%d\n", oc.Idx, info, *seed, *capacity)
 			if len(fails) == 0 {
